@@ -344,6 +344,8 @@ def finding_matches(f, prop, clause, case):
         return False
     if f.get("clause") and f["clause"] != clause:
         return False
+    if f.get("clauses") and clause not in f["clauses"]:
+        return False
     src = case.get("src", "")
     if "token_regex" in f:
         wt = case.get("witness_text")
